@@ -146,6 +146,18 @@ def run_shard(shard, tier, seed, wd, res):
             s.op(gp + ".msm_pre256", A(0, pl), K(0, kl), V.n(1 + (pl + kl) % 3))
             for w in (1, 2, 5, 9, 12):
                 s.op(gp + ".msm_pip", A(0, pl), K(0, kl), V.n(w))
+        # special entries (identity, a repeated point, a pair of inverse points) at every position x every table layout
+        O_ = V.aff(g, None)
+        cc = E1 if g == 1 else E2
+        for n_ in (2, 3, 4):
+            for pos in range(n_):
+                for special in ("O", "dup", "neg"):
+                    lst = [V.aff(g, p) for p in pts[10:10 + n_]]
+                    lst[pos] = O_ if special == "O" else V.aff(g, pts[10 + (pos + 1) % n_]) if special == "dup" else V.aff(g, cc.neg(pts[10 + (pos + 1) % n_]))
+                    kk = K(pos, pos + n_)
+                    for style in range(4):
+                        s.op(gp + ".msm_pre256", V.lst(lst), kk, V.n(style))
+                    s.op(gp + ".msm", V.lst(lst), kk)
         # all-identity points, all-zero scalars
         s.op(gp + ".msm", V.lst([V.aff(g, None)] * 9), K(0, 9))
         s.op(gp + ".msm", A(0, 9), V.lst([V.RR(0)] * 9))
@@ -197,7 +209,7 @@ def run_shard(shard, tier, seed, wd, res):
         for b in BOUNDS:
             for d in (-1, 0, 1):
                 s.op(gp + ".pip_window", V.n(max(0, b + d)))
-        for v in (0, 10 ** 6, 10 ** 9, (1 << 62), (1 << 63) - 1) + tuple(rng.getrandbits(rng.randrange(1, 30)) for _ in range(60)):
+        for v in (0, 10 ** 6, 10 ** 9, (1 << 32) - 1, 1 << 32, (1 << 62), (1 << 63) - 1, -(1 << 63), -2, -1) + tuple(rng.getrandbits(rng.randrange(1, 30)) for _ in range(60)):
             s.op(gp + ".pip_window", V.n(v))
     builds = ("rel",) if part == "prog_windows" and max(shard["ws"]) > 12 else BUILDS
     H.monitor_script(__import__("props.c10", fromlist=["x"]), s.text(), builds, wd, res, shard, timeout=timeout)
